@@ -314,9 +314,17 @@ def _grid_once(R, rng, defn, b, grid, X, reverse):
     try:
         fms = sms.fit_model(parameter_space=space_for(b, dict(grid)), data=X.copy())
     except Exception as e:  # noqa: BLE001
-        # fitting may legitimately fail to converge on random data; that is C17's business
+        from formak.exceptions import MinimizationFailure
+
         R.stats.inc("grid_fit_failed_" + type(e).__name__)
-        R.inconclusive += 1
+        if isinstance(e, MinimizationFailure):
+            # fitting may legitimately fail to converge on random data; that is C17's business
+            R.inconclusive += 1
+            return
+        # anything else means the search did not run over the supplied candidates (e.g. a whole container
+        # of candidates handed to the estimator as one value)
+        R.add([K.V(K.exc_key("grid:fit_model", e), f"fit_model raised {K.exc_text(e)} for a valid grid and data set",
+                   traceback=K.tb_text(e), **w)])
         return
     if not RECORDED:
         R.stats.inc("grid_search_not_observed")
